@@ -90,27 +90,47 @@ claim('C20',
       'DESIGN.md section 5 C20, section 3.8, section 6 D5')
 
 claim('C14',
-      'Lean theorems (Props/C14.lean). PROVED FOR ALL INPUTS (no size bound): '
+      'Lean theorems (Props/C14.lean, Props/C14Cpp.lean). PROVED FOR ALL INPUTS (no size bound): '
       '(1) native_is_shortest_lfsr: for every bit sequence s (as an integer) and every length, the model of LinearComplexityNative '
-      '(the sb/sc big-integer loop, mirrored line by line; it also stands for the value the C++ code returns to the Python wrapper '
-      'LinearComplexity, wrapper_agrees) does not raise and returns the length of the shortest LFSR generating s_0..s_{len-1} '
+      '(the sb/sc big-integer loop, mirrored line by line) does not raise and returns the length of the shortest LFSR generating s_0..s_{len-1} '
       '(an LFSR of that length generates the sequence and none shorter does; equivalently the brute-force minimum over all tap vectors). '
       'Proof: native_simulates_textbook (register invariant sc = (C*S) >> (n-m), sb = (B*S) >> (n+1-x) over carry-less products, giving '
       'native = textbook Berlekamp-Massey with explicit discrepancy s_n + sum C_i s_{n-i}) and textbook_correct (Massey\'s theorem). '
-      '(2) textbook_count / textbook_count_finset / model_count: for all n >= 1 and all m the number of n-bit sequences of linear '
+      '(2) THE C++ CODE, modelled word by word (Model/BMCpp.lean: byte packing of LfsrLength, both variants of LfsrLengthImpl over vectors of uint64 words, LfsrLengthStr; '
+      'an out-of-bounds vector access is an explicit outcome of the model): '
+      'packing / packing_bits (the (|seq|+7)/8 words carry sum 256^i seq[i]; bit k of the sequence = bit k mod 8 of byte k/8, zero padding of the last word); '
+      'portable_step_simulates + cpp_portable_simulates_native (portable #else variant: the Nat value of the word vector sb IS the big integer sb, that of sc IS sc >> m; '
+      'the shift with carries across words is /2, the word-wise xor is xor; preserved by one bit step); '
+      'clmul_spec (the model of the intrinsic, shift-and-xor over the 64 bits of x, returns ((x (*) y) / 2^64, (x (*) y) % 2^64) for the GF(2)[X] product clMul; clMul_is_polynomial_product); '
+      'clmul_block_is_64_steps + cpp_clmul_simulates_native (CLMUL variant: the uint64 bit loop on sb0, sc0 with a, b, c, d, carry_a, carry_c tracks polynomials A, B, C, D with '
+      'sb_i = (A (*) sb + B (*) sc) >> i, sc_i = (C (*) sb + D (*) sc) >> i, deg A, C <= i, deg B, D < i so that only a and c need a carry; the first 64 steps depend on the low words only; '
+      'the word loop with four clmuls per word assembles (A (*) sb + B (*) sc) >> 64; hence one block = 64 steps of LinearComplexityNative modulo the dead top word, and the tail loop finishes); '
+      'cpp_simulates_native: for EVERY byte string and EVERY int n, LfsrLengthStr of either variant = -1 if n < 0 or n > 8|seq|, else LinearComplexityNative(int.from_bytes(seq, little), n); '
+      'cpp_no_undefined_behaviour (no out-of-bounds access reachable through LfsrLengthStr, incl. the n == 0 early return of the D8 fix); cpp_variants_agree; cpp_minus_one_iff; cpp_ignores_high_bits; '
+      'cpp_matches_wrapper_model (the value Model/BM.lean assumed for the C++ result inside LinearComplexity — wrapper_agrees — is the value the word-level model computes); '
+      'cpp_is_shortest_lfsr: for 0 <= n <= 8|seq| both C++ variants return the length of the shortest LFSR generating the first n bits. '
+      '(3) textbook_count / textbook_count_finset / model_count: for all n >= 1 and all m the number of n-bit sequences of linear '
       'complexity m is LfsrCount(n, m); count_total: sum_m LfsrCount(n, m) = 2^n; logprob_count: LfsrCount(n, m) = 2^(n + LfsrLogProbability(n, m)) '
       'wherever LfsrLogProbability does not raise, and it raises exactly outside 1 <= n, 0 <= m <= n (logprob_raises_iff); native_step_structure. '
-      'BOUNDED KERNEL ENUMERATION ONLY (redundant cross-check of the executable definitions): bounded_agree (all sequences of length <= 8: native = textbook = brute force), '
-      'bounded_native_textbook_le10. '
-      'CORRESPONDENCE ONLY (differential runs, no theorem): that the Python functions and BOTH C++ variants built from the working tree '
-      '(portable; -mpclmul -msse2 -D__CLMUL__) compute the same function as the model: every sequence of length 0..14 (thorough 0..20) on all four implementations, '
-      'lengths 0..1100 around every 64-bit word boundary x {random, sparse, 0..0, 1..1, periodic, leading/trailing zeros, LFSR, LFSR with a flipped bit at a block edge, zero run then random}, '
-      '12k structured multi-word cases, sampled lengths to 2^14 (thorough 2^17 and ASan/UBSan builds of both variants), values of s with bits above length, negative/huge lengths, raw byte strings of other sizes. '
-      'Known findings (reported, exit 0): CLMUL variant crashes on the empty sequence (D8); LfsrCount(0, 0) = 0 although the empty sequence exists (count_length_zero_pinned; count_repaired proves the patched guard exact for every n).',
+      'BOUNDED KERNEL ENUMERATION ONLY (redundant cross-checks of the executable definitions, labelled bounded): bounded_agree (all sequences of length <= 8: native = textbook = brute force), '
+      'bounded_native_textbook_le10; bounded_cpp_le10 (both word-level C++ variants = bmLength on all 2047 sequences of length <= 10), '
+      'bounded_cpp_boundary (lengths 63, 64, 65, 127, 128, 129 x 13 hand-picked patterns, both variants). '
+      'CORRESPONDENCE (differential runs; what ties the models to the real code): the two Python functions against Model/BM.lean; BOTH C++ builds from the working tree '
+      '(portable; -mpclmul -msse2 -D__CLMUL__) against their OWN word-level model (ops bm.cpp_portable, bm.cpp_clmul on the raw bytes) AND against the big-integer routine (bm.cpp): '
+      'every sequence of length 0..14 (thorough 0..20), lengths 0..1100 around every 64-bit word boundary x {random, sparse, 0..0, 1..1, periodic, leading/trailing zeros, LFSR, '
+      'LFSR with a flipped bit at a block edge, zero run then random}, 12k structured multi-word cases, sampled lengths to 2^14 (thorough 2^17, word-level models to 2^15, and ASan/UBSan builds of both variants), '
+      'byte strings longer/shorter than needed, n out of range; the model of the intrinsic (bm.clmul) against the repo\'s own inline clmul() exported from a -D__CLMUL__ build (the real PCLMULQDQ instruction), '
+      'with a Python shift-and-xor reference as predicate; values of s with bits above length, negative/huge lengths for the Python entry points. '
+      'Seeded defects C14-1 (tc = sc in the carry path of the CLMUL variant) and C14-2 (whole-word skip in the portable variant) are reported as VIOLATION. '
+      'Known findings (reported, exit 0): CLMUL variant crashes on the empty sequence (D8, fixed in the working tree); LfsrCount(0, 0) = 0 although the empty sequence exists (count_length_zero_pinned; count_repaired proves the patched guard exact for every n).',
       'Trusted: Lean kernel, correspondence harness, ctypes shim standing in for pybind11 (g++ builds of berlekamp_massey.cc from the working tree). '
-      'The C++ code is NOT modelled word by word: its agreement with the model rests on the differential runs only. s is a non-negative integer in the model; negative s is only probed '
-      '(LinearComplexityNative then equals its value on s mod 2^length; LinearComplexity raises OverflowError). setup.py passes -mpclmul, which defines __PCLMUL__ and not __CLMUL__ with gcc, so a stock build uses the portable variant (recorded in the evidence, not a violation).',
-      'Lean 4 proofs (Massey\'s theorem, simulation invariant, counting recursion) over an executable model + differential correspondence with two Python and two C++ implementations',
+      'SPECIFICATION, not derived: _mm_clmulepi64_si128(x, y, 0x00) / vmull_p64 = 64x64-bit carry-less product as defined by BMCpp.clmul (differentially tested against the instruction on every run). '
+      'C++ semantics assumed by the word-level model: std::vector<uint64_t> = list of UInt64 with wrapping shifts, C int variables (n, i, j, lfsr_len, size) as unbounded naturals — exact for n <= 2^30; '
+      'for 2^30 < n < 2^31 the expression 2 * lfsr_len can overflow a 32-bit int once lfsr_len >= 2^30 (not reachable in practice: the algorithm is quadratic), which is outside the model; '
+      'the interleaved updates of tb and tc in the CLMUL word loop are modelled as two independent passes (they touch disjoint vectors). '
+      's is a non-negative integer in the model; negative s is only probed (LinearComplexityNative then equals its value on s mod 2^length; LinearComplexity raises OverflowError). '
+      'setup.py passes -mpclmul, which defines __PCLMUL__ and not __CLMUL__ with gcc, so a stock build uses the portable variant (recorded in the evidence, not a violation).',
+      'Lean 4 proofs (Massey\'s theorem, simulation invariants native<->textbook, C++ portable<->native, C++ CLMUL block<->64 native steps, counting recursion) over executable models + differential correspondence with two Python and two C++ implementations',
       'DESIGN.md section 5 C14, section 6 D8')
 
 claim('C15',
@@ -492,3 +512,7 @@ _add('C16', 'END TO END: the verdict oracle is instantiated by the per-check mod
 _add('C17', 'End to end: checkAllRSA_single_independent (Props/C16RsaAll.lean) — two runs that agree on a key and its oracle answers give it identical entries for the fifteen single checks.')
 _add('C18', 'End to end: checkAllRSA_total (every n >= 2^63, well-formed oracles, any exponent, empty batch included), checkAllECFull_total, checkAllECDSASigsFull_total (Props/C16RsaAll.lean, Props/C16EcAll.lean).')
 _add('C02', 'End to end (Props/C16EcAll.lean): checkAllEC_dlogs_sound and checkAllECDSA_weak_only_with_key_or_weak_issuer state the same on the final protobufs of the real entry points.')
+
+_add('C01', 'PROPER-DIVISOR CLAUSE at full strength (Props/C01Proper.lean): fermat_proper (sharp: holds iff the step bound is below (n+1)/2 - floor(sqrt n); fermat_proper_default for the default 100000 and n >= 2^63), hlbe_proper and lhw_proper without any size hypothesis, hence '
+            'checkAllRSA_factors_proper: after CheckAllRSA every non-empty N_FACTORS record contains a proper divisor unless n divides another modulus of the batch — for all 17 checks, given a keypair generator returning values > 1 and a Fermat step bound below that limit. '
+            'The clause is FALSE for an absurd Fermat step bound: properClause_fails (witness: bound n on a Pratt-certified 64-bit prime n records {n, 1}); the property quantifies over "every constructor parameter", so this corner is recorded as a documented limitation of the property text, not of the code.')
